@@ -49,10 +49,61 @@ func timerSources(v ssa.Value, seen map[ssa.Value]bool, out *[]ssa.Value) {
 		timerSources(x.X, seen, out)
 	case *ssa.MakeInterface:
 		timerSources(x.X, seen, out)
+	case *ssa.Call:
+		// a private helper that picks the timer channel (`expireQ(bestEffort, d)`): its
+		// sources are the values it can return, read with its parameters as the arguments
+		if sc := x.Call.StaticCallee(); sc != nil && sc.Blocks != nil && sc.Pkg == x.Parent().Pkg && CalleeName(&x.Call) != "time.After" {
+			ns := map[*ssa.Parameter]string{}
+			for k, val := range descSubst {
+				ns[k] = val
+			}
+			for i, par := range sc.Params {
+				if i < len(x.Call.Args) {
+					ns[par] = Desc(x.Call.Args[i])
+				}
+			}
+			n := 0
+			for _, b := range sc.Blocks {
+				ret, ok := b.Instrs[len(b.Instrs)-1].(*ssa.Return)
+				if !ok || len(ret.Results) != 1 || (sc.Recover != nil && b == sc.Recover) {
+					continue
+				}
+				// a return that is unreachable for the constants passed at this call site
+				// (expireQ(false, …) never yields the closed channel) is not a source
+				infeasible := false
+				savedS := descSubst
+				descSubst = ns
+				for _, blk := range []*ssa.BasicBlock{b} {
+					for _, ga := range guardAtomsOfBlock(blk) {
+						if ga == "false" || ga == "!true" {
+							infeasible = true
+						}
+					}
+				}
+				descSubst = savedS
+				n++
+				if infeasible {
+					continue
+				}
+				before := len(*out)
+				timerSources(resolveSpill(ret.Results[0], ret), seen, out)
+				for _, s := range (*out)[before:] {
+					timerSubst[s] = ns
+				}
+			}
+			if n > 0 {
+				return
+			}
+		}
+		*out = append(*out, v)
 	default:
 		*out = append(*out, v)
 	}
 }
+
+// timerSubst: for a timer source found inside a private helper, how the helper's
+// parameters read at the call site.
+var timerSubst = map[ssa.Value]map[*ssa.Parameter]string{}
 
 func isTimeChan(t types.Type) bool {
 	ch, ok := t.Underlying().(*types.Chan)
@@ -155,10 +206,22 @@ func runC18(p *Prog, r *Report) {
 					r.Check(okSrc, R, base+"/timer-sources", p.InstrPos(in), "timer channel sources are nil/closed/time.After only", "the deadline case waits on an unexpected channel: "+why)
 					for _, a := range afters {
 						arg := Desc(a.Call.Args[0])
+						// in the caller's terms when the timer is armed inside a private helper
+						argC := arg
+						var gsC []string
+						if ns := timerSubst[a]; ns != nil {
+							saved := descSubst
+							descSubst = ns
+							argC = Desc(a.Call.Args[0])
+							gsC = p.GuardStrings(a)
+							descSubst = saved
+						} else {
+							gsC = p.GuardStrings(a)
+						}
 						want := omap[opt]
 						match := false
 						for _, w := range want {
-							if fieldSuffix(w) == fieldSuffix(arg) {
+							if fieldSuffix(w) == fieldSuffix(argC) {
 								match = true
 							}
 						}
@@ -166,7 +229,7 @@ func runC18(p *Prog, r *Report) {
 						r.Check(hasAtom(p.GuardStrings(a), arg+" > 0"), R, base+"/after-guard", p.InstrPos(a), "armed only when "+arg+" > 0", "time.After("+arg+") is not guarded by "+arg+" > 0: a zero deadline (= no limit) would time out at once / a negative one fire early: guards "+strings.Join(p.GuardStrings(a), "; "))
 						if mn == "SendMsg" && hasClosedQ {
 							be := false
-							for _, g := range p.GuardStrings(a) {
+							for _, g := range gsC {
 								if strings.HasPrefix(g, "!") && strings.Contains(strings.ToLower(g), "besteffort") {
 									be = true
 								}
@@ -489,6 +552,10 @@ func c18NoPeers(p *Prog, r *Report) {
 								continue
 							}
 							d := Desc(iff.Cond)
+							// (a private predicate such as c.noPeers() is read as what it computes)
+							for _, x := range p.boolHelperFacts(Atom{Cond: iff.Cond, Pol: true}) {
+								d += " " + x
+							}
 							if strings.Contains(d, "len(recv.s.pipes)") {
 								okLoop = true
 							}
@@ -513,7 +580,7 @@ func c18NoPeers(p *Prog, r *Report) {
 				if strings.HasSuffix(g, ".failNoPeers") {
 					has1 = true
 				}
-				if g == "len(recv.pipes) == 0" {
+				if strings.HasPrefix(g, "len(") && strings.HasSuffix(g, ".pipes) == 0") {
 					has2 = true
 				}
 			}
@@ -532,4 +599,22 @@ func fieldSuffix(path string) string {
 		return path
 	}
 	return path[i+1:]
+}
+
+// guardAtomsOfBlock: normalised atoms of the conditional edges that dominate b (without a
+// Prog: dominance over the function's own blocks).
+func guardAtomsOfBlock(b *ssa.BasicBlock) []string {
+	var out []string
+	for _, ifb := range b.Parent().Blocks {
+		iff, ok := ifb.Instrs[len(ifb.Instrs)-1].(*ssa.If)
+		if !ok || ifb.Succs[0] == ifb.Succs[1] {
+			continue
+		}
+		for k, succ := range ifb.Succs {
+			if len(succ.Preds) == 1 && (succ == b || succ.Dominates(b)) {
+				out = append(out, NormAtom(iff.Cond, k == 0))
+			}
+		}
+	}
+	return out
 }
